@@ -346,14 +346,22 @@ def delitem (x : Index) (E : Externals) (now : Int) (k : PyVal) : Index × Out :
   let (c, o) := x.cache.delitem E now k
   ({ cache := c }, match o with | .bool true => .none | o => o)
 
-/-- `setdefault`: look up; on KeyError `add` and look up again -/
+/-- `setdefault`: lock-free look-up; on KeyError look up again, `add` and look up once more inside
+one transaction block, so that the default is added at most once -/
 def setdefault (x : Index) (E : Externals) (now : Int) (k v : PyVal) : Index × Out :=
   let (c, o) := x.cache.get E now k false false false
   match o with
   | .default =>
-    let (c, _) := c.add E now k v none false .null
+    let c := c.tbegin
     let (c, o) := c.get E now k false false false
-    ({ cache := c }, keyErr o)
+    match o with
+    | .default =>
+      let (c, _) := c.add E now k v none false .null
+      let (c, o) := c.get E now k false false false
+      match o with
+      | .default => ({ cache := c.traise 1 }, .exc "KeyError")
+      | o => ({ cache := c.tend }, o)
+    | o => ({ cache := c.tend }, o)
   | o => ({ cache := c }, o)
 
 /-- `pop(key[, default])`; `hasDefault = false` raises KeyError -/
